@@ -174,6 +174,62 @@ theorem checkDepartures_c07 (cfg : Cfg) (a : A) (md : Option Nat) (evs : List Ev
   have h0 : ErrExt ["C14"] a a6 := by rw [e6]; exact ErrExt.refl _ _
   exact h0.trans (errExt_foldl _ _ (fun x y => errExt_foldl _ _ (fun x' y' => errExt_chk _ _ _ _ _ (by simp)) _ _) _ _)
 
+/-! ## the C14 clause of `checkDepartures` -/
+
+/-- the subscribers of CLIENT_CLOSED that cannot be handed one and stay -/
+def dowed (cfg : Cfg) (a : A) (evs : List Ev) : List AMod :=
+  a.mods.filter (fun m => m.alive && subscribed m cfg.mtClosed && !m.isLogger && !a.w.contains m.uid &&
+    !a.wAny.contains m.uid && !(closes evs).contains m.uid)
+
+/-- who must hear about it -/
+def dfobs (cfg : Cfg) (a : A) (evs : List Ev) : List AMod :=
+  a.mods.filter (fun m => m.alive && subscribed m cfg.mtFailed && ready a m && !a.failing m.uid &&
+    !(closes evs).contains m.uid)
+
+/-- **`checkDepartures` adds no C14 entry** when every observer got one notice per departure and owed subscriber -/
+theorem checkDepartures_c14 (cfg : Cfg) (a : A) (md : Option Nat) (evs : List Ev)
+    (h7 : ∀ o ∈ dfobs cfg a evs, ∀ m ∈ dowed cfg a evs,
+      (closes evs).length * ((dowed cfg a evs).filter (·.modId == m.modId)).length ≤
+        ((sends evs).filter (fun p => p.1 == o.uid && p.2.2.body == .failed m.modId cfg.mtClosed 0 0)).length) :
+    ErrExt ["C07"] a (checkDepartures cfg a md evs) := by
+  unfold checkDepartures
+  extract_lets xs wf a1 a2 a3 a4 notices a5 observers a6 owed fobs
+  have c : ∀ (x : A) (b : Bool) (m : String), ErrExt ["C07"] x (x.chk b "C07" m) :=
+    fun x b m => errExt_chk _ _ _ _ _ (by simp)
+  have x1 : ErrExt ["C07"] a a1 := by
+    simp only [a1]; split
+    · exact c _ _ _
+    · exact ErrExt.refl _ _
+  have x2 : ErrExt ["C07"] a a2 := x1.trans (errExt_foldl _ _ (fun x y => c _ _ _) _ _)
+  have x3 : ErrExt ["C07"] a a3 := x2.trans (errExt_foldl _ _ (fun x y => c _ _ _) _ _)
+  have x4 : ErrExt ["C07"] a a4 := x3.trans (c _ _ _)
+  have x5 : ErrExt ["C07"] a a5 := x4.trans (errExt_foldl _ _ (fun x y => c _ _ _) _ _)
+  have x6 : ErrExt ["C07"] a a6 := x5.trans (errExt_foldl _ _ (fun x y => errExt_foldl _ _ (fun x' y' => by
+    split
+    · exact ErrExt.refl _ _
+    · exact c _ _ _) _ _) _ _)
+  have hm6 := x6.mods
+  have hw6 := x6.w
+  have hf6 := x6.fail
+  have how : owed = dowed cfg a evs := by
+    show List.filter _ a6.mods = _
+    unfold dowed
+    rw [hm6, hw6, x6.wAny]
+  have hfo : fobs = dfobs cfg a evs := by
+    show List.filter _ a6.mods = _
+    unfold dfobs ready A.failing
+    rw [hm6, hw6, hf6]
+  refine x6.trans ?_
+  have hrefl : ∀ y : A, y = a6 → ErrExt ["C07"] a6 y := fun y e => by rw [e]; exact ErrExt.refl _ _
+  apply hrefl
+  apply foldl_fix
+  intro o ho
+  apply foldl_fix
+  intro m hm
+  refine chk_of _ _ _ _ ?_
+  rw [how]
+  exact decide_eq_true (h7 o (by rw [← hfo]; exact ho) m (by rw [← how]; exact hm))
+
 /-! ## a connection that leaves on the read side is not written to any more -/
 
 theorem segment_broken_c07 (cfg : Cfg) (a : A) (rd : Read) (evs : List Ev) (m : AMod) (hget : a.get rd.uid = some m)
